@@ -69,6 +69,10 @@ func getDistillationFunc(dm *model.DecisionMaker) *utils.LinearFunctionParameter
 	} else {
 		parameters := utils.LinearFunctionParameters{}
 		utils.DecodeToStruct(params, &parameters)
+		// the cut level has to decrease with every distillation step, otherwise the distillation never ends
+		if parameters.B < 0 || parameters.A+parameters.B < 0 {
+			panic(fmt.Errorf("distillation function (%s) must not be negative for credibility in [0,1]", parameters.String()))
+		}
 		return &parameters
 	}
 }
